@@ -13,7 +13,8 @@ Inductive op :=
 | OpWith (f : string) (i v : N)
 | OpSet (f : string) (i v : N)
 | OpBuild (args : list N)       (* builder().with_..(..)....build(): one value per element of every writable field, in order *)
-| OpRaw.
+| OpRaw
+| OpStore.                      (* the storage integer itself, not raw_value(): reveals state above bit N-1 of an arbitrary-int base *)
 
 (** outputs: a bit pattern, or -1 (panic), -2 (stuck: outside the fragment), -3 (no such accessor) *)
 Definition zpanic : Z := (-1)%Z.
@@ -76,6 +77,7 @@ Definition do_raw (raw : N) : Z := out_of (call "raw_value"%string raw 0 (VBool 
 Definition step (raw : N) (o : op) : N * Z :=
   match o with
   | OpRaw => (raw, do_raw raw)
+  | OpStore => (raw, Z.of_N raw)
   | OpGet fname i =>
       (raw, out_of (call fname raw i (VBool false)))
   | OpWith fname i v =>
@@ -139,7 +141,7 @@ Variable d : decl.
 
 Definition spec_step (x : N) (o : op) : N * Z :=
   match o with
-  | OpRaw => (x, Z.of_N x)
+  | OpRaw | OpStore => (x, Z.of_N x)
   | OpGet fname i =>
       match find_field fname (d_fields d) with
       | Some f => if i <? count f then (x, Z.of_N (spec_get f i x)) else (x, zpanic)
